@@ -160,7 +160,7 @@ def sort_case(rng, distinct):
 # ---------------------------------------------------------------------------------------------
 
 def hooks_accept(key):
-    return key.startswith(('hooks/', 'ledger/', 'crash/', 'sanitizer/', 'asan/', 'msan/', 'ubsan/', 'guard/', 'hang', 'runaway', 'stack-overflow', 'borrowed'))
+    return key.startswith(('hooks/', 'ledger/', 'crash/', 'sanitizer/', 'asan/', 'msan/', 'ubsan/', 'guard/', 'hang', 'runaway', 'stack-overflow', 'borrowed', 'harness/'))
 
 
 def counters_check(cfg, kv):
